@@ -96,6 +96,20 @@ class Flow:
 SCALE_FREE_TESTS = ("numpy.isnan", "numpy.isinf", "numpy.isfinite", "math.isnan", "math.isinf", "math.isfinite")
 
 
+def _only_returned(w, lst) -> bool:
+    """Apart from `.append(...)` the list occurs in return values only."""
+    from .ir import subterms
+    for e in w.events:
+        if e.kind == "call" and e.target is not None and e.target[0] == "attr" and e.target[1] == lst and e.name == "append":
+            continue
+        if e.kind == "return" or (e.kind == "call" and e.value == lst) or (e.kind == "bind" and e.value == lst):
+            continue
+        for top in [x for x in (e.target, e.value) if x is not None] + list(e.args or ()) + [g for g, _ in e.guards]:
+            if any(u == lst for u in subterms(top)):
+                return False
+    return True
+
+
 def check_order_only(rep, w: Walker, pre: str = "", events: List[Event] = None) -> Dict[str, int]:
     from .common import require_scalar_fragment
     require_scalar_fragment(w, w.entry.qual)
@@ -231,6 +245,12 @@ def check_order_only(rep, w: Walker, pre: str = "", events: List[Event] = None) 
                 scan(ev.value, ev, "value")
             elif ev.name in SCALE_FREE_TESTS:
                 pass
+            elif ev.name == "append" and ev.target is not None and ev.target[0] == "attr" and ev.target[1][0] == "alloc" \
+                    and ev.target[1][1] == "list" and _only_returned(w, ev.target[1]):
+                # collecting the costs in a list of this call that is only handed back (`return preds, costs` when asked):
+                # a store - what the caller does with the numbers is the caller's business
+                for a in ev.args:
+                    scan(a, ev, "value")
             else:
                 for a in ev.args:
                     scan(a, ev, f"a call of {ev.name}")
